@@ -56,8 +56,7 @@ Section Inv.
                           exists l, nth_error (gets s) id = Some l /\ qdata qs = inl l;
     inv_ck : forall jar h, env_get K_CKCACHE (env s) = Some (ECkCache jar h) -> jar = parse_cookie h;
     inv_cc : forall h id, env_get K_CCCACHE (env s) = Some (ECCCache (Some (h, id))) ->
-                          exists o, nth_error (ccs s) id = Some o /\ cc_props P o = parse_cc h;
-    inv_bound : Forall (fun o => cc_bound P o = true) (ccs s);
+                          exists o, nth_error (ccs s) id = Some o /\ (cc_bound P o = true -> cc_props P o = parse_cc h);
     inv_hg : Forall (fun id => (id < List.length (gets s))%nat) (hgets s);
     inv_hc : Forall (fun id => (id < List.length (ccs s))%nat) (hccs s) }.
 
@@ -77,7 +76,7 @@ Section Inv.
     env_get K_CCCACHE e' = env_get K_CCCACHE (env s) ->
     Inv s -> Inv (with_env P s e').
   Proof.
-    intros Hq Hk Hc [Iq Ik Ic Ib Ig Ih]. split; cbn; auto.
+    intros Hq Hk Hc [Iq Ik Ic Ig Ih]. split; cbn; auto.
     - intros id qs E. rewrite Hq in E. auto.
     - intros jar h E. rewrite Hk in E. auto.
     - intros h id E. rewrite Hc in E. auto.
@@ -129,18 +128,17 @@ Section Inv.
                    end).
     { cbv zeta. destruct (qdata source) as [data|exc] eqn:Q; cbn [fst snd].
       - split.
-        + destruct I as [Iq Ik Ic Ib Ig Ih]. split; cbn [env gets ccs hgets hccs].
+        + destruct I as [Iq Ik Ic Ig Ih]. split; cbn [env gets ccs hgets hccs].
           * intros id qs E. rewrite env_get_set_same in E. injection E as <- <-.
             exists data. split; [apply nth_error_app_length|exact Q].
           * intros jar h E. rewrite env_get_set_other in E by exact ne_Q_CK. auto.
           * intros h id E. rewrite env_get_set_other in E by exact ne_Q_CC. auto.
-          * exact Ib.
           * eapply Forall_impl; [|exact Ig]. intros a Ha. cbv beta in *. rewrite app_length. cbn. lia.
           * exact Ih.
         + exists data. split; [apply nth_error_app_length|reflexivity].
       - split; [exact I|split; reflexivity]. }
     cbv zeta in Miss.
-    destruct (env_get K_QCACHE (env s)) as [[| | |id qs| |]|] eqn:E; try exact Miss.
+    destruct (env_get K_QCACHE (env s)) as [[| | |id qs| | |]|] eqn:E; try exact Miss.
     destruct (str_eqb qs source) eqn:Eq; [|exact Miss].
     apply str_eqb_eq in Eq. subst qs. cbn [fst snd]. split; [exact I|].
     destruct (inv_q s I _ _ E) as [l [Hl Hq]]. exists l. split; auto.
@@ -151,14 +149,13 @@ Section Inv.
     intros I Hid. unfold C01_EnvView.get_mut.
     destruct (step_i (fun k => k) false md_get_other (nth id (gets s) []) m) as [its' ret].
     destruct (is_verr ret); cbn [snd]; [exact I|].
-    destruct I as [Iq Ik Ic Ib Ig Ih]. unfold on_change. split; cbn [env gets ccs hgets hccs].
+    destruct I as [Iq Ik Ic Ig Ih]. unfold on_change. split; cbn [env gets ccs hgets hccs].
     - intros id' qs E. rewrite env_get_set_same in E. injection E as <- <-.
       exists its'. split; [apply nth_error_set_nth_same; exact Hid|apply qdata_urlencode].
     - intros jar h E. rewrite env_get_set_other in E by exact ne_Q_CK.
       rewrite env_get_set_other in E by (apply noncache_neq; [exact noncache_QS|exact cache_CKCACHE]). auto.
     - intros h id' E. rewrite env_get_set_other in E by exact ne_Q_CC.
       rewrite env_get_set_other in E by (apply noncache_neq; [exact noncache_QS|exact cache_CCCACHE]). auto.
-    - exact Ib.
     - rewrite length_set_nth. exact Ig.
     - exact Ih.
   Qed.
@@ -170,11 +167,11 @@ Section Inv.
     intros I. unfold C01_EnvView.get_cookies.
     set (header := src K_COOKIE (env s)).
     assert (Miss : Inv (with_env P s (env_set K_CKCACHE (ECkCache (parse_cookie header) header) (env s)))).
-    { destruct I as [Iq Ik Ic Ib Ig Ih]. split; cbn [with_env env gets ccs hgets hccs]; auto.
+    { destruct I as [Iq Ik Ic Ig Ih]. split; cbn [with_env env gets ccs hgets hccs]; auto.
       - intros id qs E. rewrite env_get_set_other in E by exact ne_CK_Q. auto.
       - intros jar h E. rewrite env_get_set_same in E. injection E as <- <-. reflexivity.
       - intros h id E. rewrite env_get_set_other in E by exact ne_CK_CC. auto. }
-    destruct (env_get K_CKCACHE (env s)) as [[| | | |jar h|]|] eqn:E; cbn [fst snd]; try (split; [exact Miss|reflexivity]).
+    destruct (env_get K_CKCACHE (env s)) as [[| | | |jar h| |]|] eqn:E; cbn [fst snd]; try (split; [exact Miss|reflexivity]).
     destruct (str_eqb h header) eqn:Eh; cbn [fst snd]; [|split; [exact Miss|reflexivity]].
     apply str_eqb_eq in Eh. subst h. split; [exact I|]. exact (inv_ck s I _ _ E).
   Qed.
@@ -195,12 +192,11 @@ Section Inv.
     (forall id qs, env_get K_QCACHE (env s) = Some (EQCache id qs) ->
                    exists l, nth_error (gets s) id = Some l /\ qdata qs = inl l) ->
     (forall jar h, env_get K_CKCACHE (env s) = Some (ECkCache jar h) -> jar = parse_cookie h) ->
-    Forall (fun o => cc_bound P o = true) (ccs s) ->
     Forall (fun id => (id < List.length (gets s))%nat) (hgets s) ->
     Forall (fun id => (id < List.length (ccs s))%nat) (hccs s) ->
     Inv (cc_callback p s).
   Proof.
-    intros Iq Ik Ib Ig Ih. unfold C01_EnvView.cc_callback. cbn [cc_update_invalidates repaired].
+    intros Iq Ik Ig Ih. unfold C01_EnvView.cc_callback. cbn [cc_update_invalidates repaired].
     split; cbn [with_env env gets ccs hgets hccs]; auto.
     - intros id qs E. rewrite env_get_set_other in E by exact ne_CC_Q.
       rewrite env_get_set_other in E by (apply noncache_neq; [exact noncache_CC|exact cache_QCACHE]). auto.
@@ -216,7 +212,8 @@ Section Inv.
 
   Lemma get_CC_spec s : Inv s ->
     Inv (snd (get_CC s)) /\
-    exists o, nth_error (ccs (snd (get_CC s))) (fst (get_CC s)) = Some o /\ cc_props P o = parse_cc (src K_CC (env s)).
+    exists o, nth_error (ccs (snd (get_CC s))) (fst (get_CC s)) = Some o /\ cc_bound P o = true /\
+              cc_props P o = parse_cc (src K_CC (env s)).
   Proof.
     intros I. unfold C01_EnvView.get_CC.
     set (value := src K_CC (env s)).
@@ -225,26 +222,28 @@ Section Inv.
     set (s1 := mkSt P (env s) (gets s) (ccs s ++ [mkCC P p true]) (hgets s) (hccs s) (wcs s)).
     set (s2 := if cc_empty p then s1 else cc_callback p s1).
     assert (I1 : Inv s1).
-    { destruct I as [Iq Ik Ic Ib Ig Ih]. split; cbn [s1 env gets ccs hgets hccs]; auto.
+    { destruct I as [Iq Ik Ic Ig Ih]. split; cbn [s1 env gets ccs hgets hccs]; auto.
       - intros h id' E. destruct (Ic _ _ E) as [o [Ho Hp]]. exists o. split; auto.
         rewrite nth_error_app1; auto. apply nth_error_Some. congruence.
-      - apply Forall_app. split; auto.
       - eapply Forall_impl; [|exact Ih]. intros a Ha. cbv beta in *. rewrite app_length. cbn. lia. }
     assert (I2 : Inv s2) by (unfold s2; destruct (cc_empty p); [exact I1|destruct I1; apply cc_callback_inv; assumption]).
     assert (C2 : ccs s2 = ccs s ++ [mkCC P p true]) by (unfold s2; destruct (cc_empty p); reflexivity).
     assert (Miss : Inv (with_env P s2 (env_set K_CCCACHE (ECCCache (Some (value, id))) (env s2))) /\
                    exists o, nth_error (ccs (with_env P s2 (env_set K_CCCACHE (ECCCache (Some (value, id))) (env s2)))) id = Some o
-                             /\ cc_props P o = parse_cc value).
+                             /\ cc_bound P o = true /\ cc_props P o = parse_cc value).
     { split.
-      - destruct I2 as [Iq Ik Ic Ib Ig Ih]. split; cbn [with_env env gets ccs hgets hccs]; auto.
+      - destruct I2 as [Iq Ik Ic Ig Ih]. split; cbn [with_env env gets ccs hgets hccs]; auto.
         + intros id' qs E. rewrite env_get_set_other in E by exact ne_CC_Q. auto.
         + intros jar h E. rewrite env_get_set_other in E by exact ne_CC_CK. auto.
         + intros h id' E. rewrite env_get_set_same in E. injection E as <- <-.
           exists (mkCC P p true). rewrite C2. split; [apply nth_error_app_length|reflexivity].
-      - exists (mkCC P p true). cbn [with_env ccs]. rewrite C2. split; [apply nth_error_app_length|reflexivity]. }
-    destruct (env_get K_CCCACHE (env s)) as [[| | | | |[[h id']|]]|] eqn:E; cbn [fst snd]; try exact Miss.
-    destruct (str_eqb h value) eqn:Eh; cbn [fst snd]; [|exact Miss].
-    apply str_eqb_eq in Eh. subst h. split; [exact I|]. exact (inv_cc s I _ _ E).
+      - exists (mkCC P p true). cbn [with_env ccs]. rewrite C2. split; [apply nth_error_app_length|split; reflexivity]. }
+    destruct (env_get K_CCCACHE (env s)) as [[| | | | |[[h id']|]|]|] eqn:E; cbn [fst snd]; try exact Miss.
+    cbn [cc_reuse_needs_bound repaired negb orb].
+    destruct (str_eqb h value) eqn:Eh; cbn [andb fst snd]; [|exact Miss].
+    destruct (inv_cc s I _ _ E) as [o [Ho Hp]]. rewrite Ho.
+    destruct (cc_bound P o) eqn:Hb; cbn [fst snd]; [|exact Miss].
+    apply str_eqb_eq in Eh. subst h. split; [exact I|]. exists o. auto.
   Qed.
 
   Lemma cc_mut_inv s id m : Inv s -> Inv (snd (cc_mut id m s)).
@@ -252,17 +251,24 @@ Section Inv.
     intros I. unfold C01_EnvView.cc_mut.
     destruct (nth_error (ccs s) id) as [o|] eqn:Eo; cbn [snd]; [|exact I].
     destruct (cc_apply m (cc_props P o)) as [[p'|] ret]; cbn [snd]; [|exact I].
-    assert (Hb : cc_bound P o = true).
-    { pose proof (inv_bound s I) as B. rewrite Forall_forall in B. apply B. eapply nth_error_In; eauto. }
-    rewrite Hb. destruct I as [Iq Ik Ic Ib Ig Ih].
-    apply cc_callback_inv; cbn [env gets ccs hgets hccs]; auto.
-    - apply Forall_set_nth; auto.
-    - rewrite length_set_nth. exact Ih.
+    assert (Hid : (id < List.length (ccs s))%nat) by (apply nth_error_Some; congruence).
+    destruct I as [Iq Ik Ic Ig Ih].
+    destruct (cc_bound P o) eqn:Hb.
+    - apply cc_callback_inv; cbn [env gets ccs hgets hccs]; auto.
+      rewrite length_set_nth. exact Ih.
+    - (* an object that is not bound to this environ (a plain dict, or one that belongs to the environ this one was
+         copied from): nothing is written here, and nothing is claimed about such an object *)
+      split; cbn [env gets ccs hgets hccs]; auto.
+      + intros h id0 E. destruct (Ic _ _ E) as [o0 [Ho0 Hp0]].
+        destruct (Nat.eq_dec id id0) as [<-|Hne].
+        * exists (mkCC P p' false). split; [apply nth_error_set_nth_same; exact Hid|]. cbn. discriminate.
+        * exists o0. split; [rewrite nth_error_set_nth_other by exact Hne; exact Ho0|exact Hp0].
+      + rewrite length_set_nth. exact Ih.
   Qed.
 
   Lemma cc_assign_inv s a : Inv s -> Inv (cc_assign a s).
   Proof.
-    intros [Iq Ik Ic Ib Ig Ih]. unfold C01_EnvView.cc_assign. cbn [cc_assign_keeps_obj repaired].
+    intros [Iq Ik Ic Ig Ih]. unfold C01_EnvView.cc_assign. cbn [cc_assign_keeps_obj repaired].
     destruct a as [t|p]; (split; cbn [with_env env gets ccs hgets hccs]; auto;
       [ intros id qs E; rewrite env_get_set_other in E by exact ne_CC_Q;
         rewrite env_get_set_other in E by (apply noncache_neq; [exact noncache_CC|exact cache_QCACHE]); auto
@@ -273,12 +279,34 @@ Section Inv.
 
   Lemma cc_del_inv s : Inv s -> Inv (with_env P s (env_del K_CCCACHE (env_del K_CC (env s)))).
   Proof.
-    intros [Iq Ik Ic Ib Ig Ih]. split; cbn [with_env env gets ccs hgets hccs]; auto.
+    intros [Iq Ik Ic Ig Ih]. split; cbn [with_env env gets ccs hgets hccs]; auto.
     - intros id qs E. rewrite env_get_del_other in E by exact ne_CC_Q.
       rewrite env_get_del_other in E by (apply noncache_neq; [exact noncache_CC|exact cache_QCACHE]). auto.
     - intros jar h E. rewrite env_get_del_other in E by exact ne_CC_CK.
       rewrite env_get_del_other in E by (apply noncache_neq; [exact noncache_CC|exact cache_CKCACHE]). auto.
     - intros h id E. rewrite env_get_del_same in E. discriminate.
+  Qed.
+
+  (* the shallow copy of the environ: its cache tuples refer to objects that do not belong to it *)
+  Lemma copy_env_inv s : Inv s -> Inv (copy_env P s).
+  Proof.
+    intros [Iq Ik Ic Ig Ih]. unfold copy_env.
+    set (f := fun v : eval => match v with EQCache id qs => EQForeign (nth id (gets s) []) qs | v => v end).
+    assert (E : map (fun kv : str * eval => match snd kv with
+                                           | EQCache id qs => (fst kv, EQForeign (nth id (gets s) []) qs)
+                                           | v => (fst kv, v)
+                                           end) (env s)
+                = map (fun kv => (fst kv, f (snd kv))) (env s)).
+    { apply map_ext. intros [k v]. destruct v; reflexivity. }
+    rewrite E. split; cbn [env gets ccs hgets hccs]; auto.
+    - intros id qs H. rewrite env_get_map in H. destruct (env_get K_QCACHE (env s)) as [v|]; [|discriminate].
+      destruct v; discriminate.
+    - intros jar h H. rewrite env_get_map in H. destruct (env_get K_CKCACHE (env s)) as [v|] eqn:Ev; [|discriminate].
+      destruct v; try discriminate. cbn in H. injection H as <- <-. eapply Ik; eauto.
+    - intros h id H. rewrite env_get_map in H. destruct (env_get K_CCCACHE (env s)) as [v|] eqn:Ev; [|discriminate].
+      destruct v as [| | | | |c0|]; try discriminate. cbn in H. injection H as ->.
+      destruct (Ic _ _ eq_refl) as [o [Ho _]]. exists (mkCC P (cc_props P o) false).
+      split; [exact (map_nth_error (fun o => mkCC P (cc_props P o) false) _ _ Ho)|]. cbn. discriminate.
   Qed.
 
   (* ---------------------------------------------------------------- reads *)
@@ -289,7 +317,7 @@ Section Inv.
     - destruct (get_cookies_spec s I) as [I' _]. destruct (get_cookies s) as [jar s']; exact I'.
     - destruct (get_CC_spec s I) as [I' _]. destruct (get_CC s) as [id s']; exact I'.
     - unfold get_charset. destruct (nth w (wcs s) None); cbn [snd]; [exact I|].
-      destruct I as [Iq Ik Ic Ib Ig Ih]. split; cbn [env gets ccs hgets hccs]; auto.
+      destruct I as [Iq Ik Ic Ig Ih]. split; cbn [env gets ccs hgets hccs]; auto.
   Qed.
 
   (* ---------------------------------------------------------------- every operation *)
@@ -319,10 +347,10 @@ Section Inv.
     - (* OHdrUpdate *) cbn [snd]. apply Inv_update. exact I.
     - (* OHold *) destruct k.
       + destruct (get_GET_spec s I) as [I' R]. destruct (get_GET s) as [[id|exc] s']; cbn [fst snd] in *; [|exact I'].
-        destruct R as [l [Hl _]]. destruct I' as [Iq Ik Ic Ib Ig Ih]. split; cbn [env gets ccs hgets hccs]; auto.
+        destruct R as [l [Hl _]]. destruct I' as [Iq Ik Ic Ig Ih]. split; cbn [env gets ccs hgets hccs]; auto.
         apply Forall_app. split; auto. constructor; auto. apply nth_error_Some. congruence.
       + destruct (get_CC_spec s I) as [I' R]. destruct (get_CC s) as [id s']; cbn [fst snd] in *.
-        destruct R as [o [Ho _]]. destruct I' as [Iq Ik Ic Ib Ig Ih]. split; cbn [env gets ccs hgets hccs]; auto.
+        destruct R as [o [Ho _]]. destruct I' as [Iq Ik Ic Ig Ih]. split; cbn [env gets ccs hgets hccs]; auto.
         apply Forall_app. split; auto. constructor; auto. apply nth_error_Some. congruence.
     - (* OGetMut *) destruct h as [|i].
       + destruct (get_GET_spec s I) as [I' R]. destruct (get_GET s) as [[id|exc] s']; cbn [fst snd] in *; [|exact I'].
@@ -339,6 +367,7 @@ Section Inv.
     - apply cc_assign_inv; auto.
     - apply cc_del_inv; auto.
     - (* ORead *) cbn [snd]. apply rd_inv; auto.
+    - (* OCopyEnv *) cbn [snd]. apply copy_env_inv; auto.
   Qed.
 
   Theorem run_inv ops : forall s, Forall (wf_op P CCOP) ops -> Inv s -> Inv (run ops s).
